@@ -305,6 +305,7 @@ for n in range(0, 3):
             name = f"template:[{';'.join(f'{d}/{dv!r}' if has else d for d, has, dv in ports)}]" + (",cached" if known else "")
             c = Case(name, [SELF, template_shape(ports, known)], asm_spec(ports, known))
             c.native = False
+            c.props = ("C12", "C07")  # other modules add cases for this function under C06: these shapes belong to C12 / C07 only
             c.models = [
                 (ir.EntityTemplate.__dict__["port_declarations"], lambda it, self: self.fields["f_ports"]),
                 (ir.EntityTemplate.__dict__["generic_declarations"], lambda it, self: {}),
@@ -501,7 +502,7 @@ for name, (formals, call) in SCENARIOS.items():
     con.cases.append(c)
 
 
-contract("cohdl._core._context:Entity.__init__", ("C05",))  # "port connection" of C05 (the module is loaded for C05 and C12 only)
+contract("cohdl._core._context:Entity.__init__", ("C05", "C06", "C13"))  # "port connection" of C05; well-typed port associations of C06; "views keep the same root" of C13 (the declared type of the ROOT decides)
 # the VHDL TYPE of an actual: a port map names the connected object (plus a slice / index), it contains no conversion.  The type
 # of that text is the DECLARED type of the root object (a slice of an unsigned signal is unsigned, whatever view the Python
 # object is), so for vector ports the root's vector type must be the port's: `b => u` with b : std_logic_vector and
